@@ -229,12 +229,13 @@ func NewDialogueRunner(storer variable.Storer, rngSeed string, readers ...io.Rea
 	}
 
 	runner := &DialogueRunner{
-		dialogue:        dialogue,
-		statementsToRun: statementsToRun,
-		variableStorer:  storer,
-		commandStorer:   newCommandStorer(),
-		visitedNodes:    map[string]int{},
-		currentNode:     firstNode.Title(),
+		dialogue:         dialogue,
+		statementsToRun:  statementsToRun,
+		variableStorer:   storer,
+		commandStorer:    newCommandStorer(),
+		visitedNodes:     map[string]int{},
+		currentNode:      firstNode.Title(),
+		variableSnapshot: storer.GetValues(),
 	}
 
 	functionStorer := newFunctionStorer(rng)
